@@ -47,7 +47,7 @@ Verdict passthrough_oracle(const ExecOp &op, const ExecObs &o, const RunResult &
 
 std::string gen_modelled_format(Rng &r, const std::string &marker, size_t maxlen) {
     static const char *plain_tags[] = {"uid", "euid", "gid", "egid", "username", "eusername", "group", "egroup", "pid", "ppid", "sid", "tid", "tid_kernel", "cwd", "hostname", "tty",
-        "tty_uid", "tty_username", "login", "filename", "cmdline", "snoopy_version", "timestamp", "timestamp_ms", "timestamp_us", "datetime", "rpname", "failure", "noop"};
+        "tty_uid", "tty_username", "login", "filename", "cmdline", "snoopy_version", "timestamp", "timestamp_ms", "timestamp_us", "datetime", "rpname", "failure", "noop", "domain", "ipaddr", "systemd_unit_name"};
     std::string f;
     int n = (int)r.range(1, 8);
     for (int i = 0; i < n && f.size() < maxlen; i++) {
